@@ -192,6 +192,35 @@ def judge(kinds, events, out):
     return bad
 
 
+STORED = [(("steps", "step"), {}), (("step", "steps"), {}), (("step", "step"), {}), (("stream", "step"), {}), (("steps", "steps"), {}), (("stream", "step"), {"a": 1})]
+
+
+def store_race(R, quick, clause_filter=lambda name: name.startswith("(6)") or name.startswith("request thread")):
+    """C19/C20 use: two concurrent stepping requests on a server with an external state adapter, forced through the schedules
+    under which a server that externalises after releasing the lock leaves an older session in the store (TLC's counterexamples of
+    deviation D19c) and through a sample of the others; reports the clauses selected by clause_filter"""
+    rng = random.Random(common.seed() + 77)
+    n = 0
+    for kinds, abort in STORED[:4] if quick else STORED:
+        real = lambda sc: tuple(e[0] for e in sc if e[1] == "x")
+        mc = tlc.run("StepLock", cons(kinds, abort=abort, store=True), invariants=INV + ["Emit"], spec="Spec", workers=1)
+        if mc.violation:
+            R.violation("spec:" + mc.violation, {"kinds": kinds, "trace": mc.trace[:2000]})
+        dv = tlc.run("StepLock", cons(kinds, '{"D19c_save_after_unlock"}', abort=abort, store=True), invariants=["Emit"], spec="Spec", workers=1)
+        late = sorted({real(o["sched"]) for o in dv.emitted if o["stored"] != o["clock"]})
+        ok = sorted({real(o["sched"]) for o in mc.emitted})
+        cap = 6 if quick else 40
+        for sc in (late if len(late) <= cap else rng.sample(late, cap)) + (ok if len(ok) <= cap else rng.sample(ok, cap)):
+            events, out = execute(kinds, abort, list(sc), False, True)
+            n += 1
+            bad = [b for b in judge(kinds, events, out) if clause_filter(b[0])]
+            if bad:
+                R.violation(bad[0][0], {"kinds": kinds, "abort": abort, "external_state_adapter": True, "schedule": list(sc), "detail": bad[0][1], "events": events, "responses": out["resp"]})
+                if len(R.violations) >= 12:
+                    return n
+    return n
+
+
 def run(tier, replay_file=None):
     R = common.Run("C18", tier, "model_checking")
     quick = tier == "quick"
@@ -214,7 +243,7 @@ def run(tier, replay_file=None):
     plans = []
     # on a server with an external state adapter every stepping request externalises the session: the copy (S) and the write (P)
     # are steps of their own, and the store must hold the current session when the requests have ended
-    stored = [(("steps", "step"), {}), (("step", "steps"), {}), (("step", "step"), {}), (("stream", "step"), {}), (("steps", "steps"), {}), (("stream", "step"), {"a": 1})]
+    stored = STORED
     for kinds, abort, store in [(k, a, False) for k, a in combos + triples] + [(k, a, True) for k, a in stored]:
         # 1. design: all interleavings of the intended protocol satisfy the clauses
         mc = tlc.run("StepLock", cons(kinds, abort=abort, store=store), invariants=INV + ["Emit"], spec="Spec", workers=1)
